@@ -63,6 +63,8 @@ class Contract:
     local_types: dict = field(default_factory=dict)
     only_kinds: list = field(default_factory=list)  # variant contracts: obligation kinds this contract is about
     inherits: str | None = None  # class name of the contract whose requires / invariants / raises are taken over
+    public_io_only: bool = False  # the native generator feeds only the function's public inputs and the clauses read
+    # only its public result: a native counterexample counts even when the symbolic side cannot decide the function
     extras: dict = field(default_factory=dict)  # requires_extra / inv_extra_<k> of a variant
     ret_type: T.Ty | None = None
     inline: bool = False
@@ -149,6 +151,9 @@ class SpecSet:
         self.event_fields_src.update(consts.get("EVENT_FIELDS", {}))
         self.inline.update(consts.get("INLINE", []))
         self.opaque_globals.update(consts.get("OPAQUE_GLOBALS", {}))
+        # repository classes whose instances are library-like collaborators of the function under contract: the
+        # constructor call yields one fresh opaque object (its __init__ is NOT executed), methods via OPAQUE_METHODS
+        self.__dict__.setdefault("opaque_ctors", set()).update(consts.get("OPAQUE_CTORS", []))
         self.logged_functions.update(consts.get("LOGGED_FUNCTIONS", []))
         self.lock_types.update(consts.get("LOCK_TYPES", []))
         self.frozen_write_ok.update(consts.get("FROZEN_WRITE_OK", []))
@@ -198,6 +203,8 @@ class SpecSet:
                     c.only_kinds = list(v)
                 elif k == "inherits":
                     c.inherits = v
+                elif k == "public_io_only":
+                    c.public_io_only = bool(v)
                 elif k == "ret_type":
                     c.ret_type = v
                 elif k == "module":
@@ -354,7 +361,7 @@ class SpecSet:
         return None
 
     def opaque_ctor(self, name):
-        return None
+        return True if name in self.__dict__.get("opaque_ctors", ()) else None
 
     def event_field(self, name):
         return self._event_fields.get(name)
